@@ -97,9 +97,12 @@ func ruleCommandsSubmitted(c *Ctx) {
 				}
 				return false
 			}
-			submits := func(nd ast.Node) bool {
+			submitsDirect := func(info *types.Info, nd ast.Node, obj types.Object) bool {
 				found := false
 				ast.Inspect(nd, func(x ast.Node) bool {
+					if _, isLit := x.(*ast.FuncLit); isLit {
+						return false
+					}
 					call, ok := x.(*ast.CallExpr)
 					if !ok {
 						return true
@@ -109,7 +112,7 @@ func ruleCommandsSubmitted(c *Ctx) {
 						return true
 					}
 					ast.Inspect(call, func(y ast.Node) bool {
-						if kv, ok := y.(*ast.KeyValueExpr); ok && exprString(kv.Key) == "Commands" && isObj(info, kv.Value, so) {
+						if kv, ok := y.(*ast.KeyValueExpr); ok && exprString(kv.Key) == "Commands" && isObj(info, kv.Value, obj) {
 							found = true
 						}
 						return true
@@ -118,6 +121,9 @@ func ruleCommandsSubmitted(c *Ctx) {
 				})
 				return found
 			}
+			// directly, or through a helper of the package that submits the slice it is handed on
+			// every path (its empty-slice branch excepted)
+			submits := func(nd ast.Node) bool { return performs(m.Pk, nd, so, submitsDirect, 0) }
 			g := buildCFG(m.Pk, body)
 			in := make([]int, len(g.Blocks)) // 0 unvisited, 1 clean, 2 pending (may)
 			in[0] = 1
@@ -463,11 +469,14 @@ func ruleBatchesProcessed(c *Ctx) {
 			n++
 			g := buildCFG(pk, fd.Body)
 			set := func(nd ast.Node) bool { return nd == collectNode }
-			clear := func(nd ast.Node) bool {
+			processDirect := func(info *types.Info, nd ast.Node, obj types.Object) bool {
 				found := false
 				ast.Inspect(nd, func(x ast.Node) bool {
+					if _, isLit := x.(*ast.FuncLit); isLit {
+						return false
+					}
 					if call, ok := x.(*ast.CallExpr); ok {
-						if se, ok := ast.Unparen(call.Fun).(*ast.SelectorExpr); ok && se.Sel.Name == "Process" && len(call.Args) == 1 && isObj(info, call.Args[0], sqes) {
+						if se, ok := ast.Unparen(call.Fun).(*ast.SelectorExpr); ok && se.Sel.Name == "Process" && len(call.Args) == 1 && isObj(info, call.Args[0], obj) {
 							found = true
 						}
 					}
@@ -475,6 +484,7 @@ func ruleBatchesProcessed(c *Ctx) {
 				})
 				return found
 			}
+			clear := func(nd ast.Node) bool { return performs(pk, nd, sqes, processDirect, 0) }
 			clearEdge := func(b *cfg.Block, i int) bool { return lenEdgeEmpty(info, b, i, sqes) }
 			// the loop head: collecting the next batch with one pending loses the previous one — the
 			// set node itself re-raises, so a pending state ENTERING the collect node is the leak
@@ -1040,8 +1050,12 @@ func ruleCQEWellFormed(c *Ctx) {
 				if !isLit || fl.Type.Params == nil || len(fl.Type.Params.List) == 0 || len(fl.Type.Params.List[0].Names) == 0 {
 					return true
 				}
-				p0 := info.Defs[fl.Type.Params.List[0].Names[0]]
-				ast.Inspect(fl.Body, func(y ast.Node) bool {
+				fbody, fpars, _ := forwardedClosure(pk, fl)
+				var p0 types.Object
+				if len(fpars) > 0 && fpars[0] != nil {
+					p0 = fpars[0]
+				}
+				ast.Inspect(fbody, func(y ast.Node) bool {
 					if cl, isCl := y.(*ast.CompositeLit); isCl && isNamed(info.Types[cl].Type, pkgTAio, "SenderCompletion") {
 						for _, el := range cl.Elts {
 							if kv, isKv := el.(*ast.KeyValueExpr); isKv && exprString(kv.Key) == "Success" && isObj(info, kv.Value, p0) {
@@ -1062,8 +1076,15 @@ func ruleCQEWellFormed(c *Ctx) {
 				}
 				errName := fl.Type.Params.List[1].Names[0].Name
 				env := newProvEnv(pk, fd)
+				dbody, dpars, dhost := forwardedClosure(pk, fl)
+				if hd, isDecl := dhost.(*ast.FuncDecl); isDecl {
+					env = newProvEnv(pk, hd)
+					if len(dpars) > 1 && dpars[1] != nil {
+						errName = dpars[1].Name()
+					}
+				}
 				errOK, compOK := false, false
-				ast.Inspect(fl.Body, func(y ast.Node) bool {
+				ast.Inspect(dbody, func(y ast.Node) bool {
 					as, isAs := y.(*ast.AssignStmt)
 					if !isAs || len(as.Lhs) != 1 {
 						return true
@@ -1072,7 +1093,7 @@ func ruleCQEWellFormed(c *Ctx) {
 					if !isSel {
 						return true
 					}
-					conds := env.enclosingConds(fl.Body, as)
+					conds := env.enclosingConds(dbody, as)
 					has := func(a string) bool {
 						for _, c := range conds {
 							if c == a {
